@@ -81,3 +81,33 @@ func ZZC07CheckFiles() {
 	}
 	zzWitness("end")
 }
+
+// ZZC07Stdin: `evy fmt` without files reads standard input: it writes the
+// formatted text to standard output; with -c it writes nothing and exits
+// zero exactly for input already in formatted form; a text that does not
+// parse gives an error and no output; -w without files is refused.
+func ZZC07Stdin() {
+	texts := append([]string{"print (\n", "x := \n"}, zzC07Texts...)
+	src := texts[zzChoice("text", len(texts))]
+	mode := zzChoice("mode", 3) // 0 format, 1 check, 2 write (refused)
+	want, ferr := format([]byte(src), false)
+	zzStdin(src)
+	c := &fmtCmd{Check: mode == 1, Write: mode == 2}
+	err := c.Run()
+	out := zzStdout()
+	switch {
+	case mode == 2:
+		zzAssert(err != nil && out == "", "C07 stdin: -w without a file is refused")
+	case ferr != nil:
+		zzAssert(err != nil && out == "", "C07 stdin: input that does not parse gives an error and no output")
+		zzReach("stdin-unparsable")
+	case mode == 0:
+		zzAssert(err == nil && out == want, "C07 stdin: the formatted text is written to standard output")
+		zzReach("stdin-formatted")
+	case mode == 1:
+		zzAssert((err == nil) == (src == want), "C07 stdin: -c exits zero exactly for input that is already in formatted form")
+		zzAssert(out == "", "C07 stdin: -c writes nothing")
+		zzReach("stdin-checked")
+	}
+	zzWitness("end")
+}
